@@ -239,6 +239,15 @@ func c15PutVerifies(c *Ctx) {
 		idOK := idParam != nil && isParam(a[0], idParam)
 		bodyOK := hasOrigin(a[1], func(o string) bool { return strings.Contains(o, "bytes.Buffer).Bytes#0") })
 		c.verdict(idOK && bodyOK, "HTTPHandler.put:ctor-args", ci.Pos(), "NewChunkFromStorage(id from the request path, request body, ...)", "the uploaded chunk is not verified against the id of the request path")
+		// the skip argument is the configured switch (or false): with a constant true the
+		// constructor records the requested id as already calculated, and any later
+		// chunk.ID() != id comparison compares the id with itself
+		if len(a) >= 4 {
+			skipOK := onlyOrigins(a[3], func(o string) bool {
+				return o == "field:HTTPHandler.SkipVerifyWrite" || o == "const:false"
+			})
+			c.verdict(skipOK, "HTTPHandler.put:ctor-skip", ci.Pos(), "verification is skipped only as configured by SkipVerifyWrite", fmt.Sprintf("the uploaded chunk is built with verification skipped by %v, not by the SkipVerifyWrite setting: content that does not match the id is stored under it", origins(a[3])))
+		}
 	}
 	if n == 0 {
 		c.bad("HTTPHandler.put:stored-chunk", fn.Pos(), "put stores nothing")
